@@ -399,7 +399,10 @@ theorem csText_escText (ls : List Bytes) (hc : ∀ l ∈ ls, CanonLine l) (tail 
       | nil => simp [escOut] at hb
       | cons a t =>
         have : (escOut (a :: t)).getLast? = (a :: t).getLast? := by
-          simp [escOut, List.getLast?_append]
+          simp only [escOut, List.getLast?_append]
+          cases hg : (a :: t).getLast? with
+          | none => simp at hg
+          | some x => rfl
         rw [this] at hb
         exact hlast b hb
     have hne2 : (escOut l ++ LF :: (escText ls ++ csEndText ++ LF :: tail)) ≠ [] := by simp
